@@ -108,7 +108,8 @@ def write_replay(prop, doc, vclass, digest, tag):
     name = "%s-%s-%s.json" % (prop, doc.get("seed", 0), tag)
     path = os.path.join(REPLAYS, name)
     with open(path, "w") as f:
-        json.dump({"property": prop, "engine": ENGINE_OF[prop], "expect": {"class": vclass, "digest": digest}, "doc": doc}, f, indent=1, sort_keys=True)
+        # (keys are not sorted: the order of a rank table or of a batch is part of the scenario)
+        json.dump({"property": prop, "engine": ENGINE_OF[prop], "expect": {"class": vclass, "digest": digest}, "doc": doc}, f, indent=1)
     return path
 
 
